@@ -26,13 +26,23 @@ struct Req { index: usize, old: Bytes, new: Bytes, tag: String }
 pub fn run_c12(cx: &mut Cx) {
     let issuer = cx.node("issuer");
     let holder = cx.node("holder");
-    let suite = gen_suite(cx);
-    let l = if cx.run_index % 4 == 0 { 1 + (cx.run_index / 4 % 6) as usize } else { 1 + cx.ch.choose("L", 12) as usize };
-    let seed = cx.run_seed;
-    let header = gen_octets(cx, "header", 0);
+    // one or two credentials evolve on the same nodes; the second one uses the other suite
+    let first = gen_suite(cx);
+    let n_cred = 1 + cx.ch.choose("credentials", 2);
+    for c in 0..n_cred {
+        let suite = if c == 0 { first } else { first.other() };
+        credential(cx, c, suite, issuer, holder);
+    }
+    cx.run();
+}
+
+fn credential(cx: &mut Cx, c: u64, suite: Suite, issuer: NodeId, holder: NodeId) {
+    let l = if cx.run_index % 4 == 0 && c == 0 { 1 + (cx.run_index / 4 % 6) as usize } else { 1 + cx.ch.choose("L", 12) as usize };
+    let seed = cx.run_seed ^ (c << 32);
+    let header = gen_octets(cx, "header", c);
     let msgs: Vec<Bytes> = (0..l).map(|i| bytes_for(seed, b"u-m", i as u64, 4 + i % 9)).collect();
     let (h1, m1) = (header.clone(), msgs.clone());
-    cx.log(format!("credential: suite={} L={l}", suite.name()));
+    cx.log(format!("credential {c}: suite={} L={l}", suite.name()));
     cx.step(issuer, "issue", StepOpts::default(), move || { let (sk, pk) = api::keygen(suite, &bytes_for(seed, b"ikm", 0, 32), None, None)?; let sig = api::sign(suite, &sk, &pk, &h1, &Some(m1))?; Ok::<_, String>((sk, pk, sig)) }, move |cx, st| {
         let Ok(Ok((sk, pk, sig))) = st.out else { cx.log("issuance failed (C01's business)".into()); return; };
         let model = Rc::new(RefCell::new(Model { suite, sk, pk, header, e: sig[48..].to_vec(), epochs: vec![(msgs.clone(), sig)] }));
@@ -43,7 +53,7 @@ pub fn run_c12(cx: &mut Cx) {
         for j in 0..k {
             let index = if l <= 6 { (j + cx.run_index as usize) % l } else { cx.ch.choose("index", l as u64) as usize };
             let new = if cx.ch.chance("same_value", 1, 12) { cur[index].clone() } else { bytes_for(seed, b"u-new", j as u64, 3 + j % 7) };
-            reqs.push(Req { index, old: cur[index].clone(), new: new.clone(), tag: format!("u{j}") });
+            reqs.push(Req { index, old: cur[index].clone(), new: new.clone(), tag: format!("c{c}u{j}") });
             cur[index] = new;
         }
         // channel faults on the request stream: reorder (swap neighbours), duplicate, corrupt
@@ -55,14 +65,13 @@ pub fn run_c12(cx: &mut Cx) {
             match cx.ch.choose("fault_kind", 5) {
                 0 => { if p + 1 < stream.len() { stream.swap(p, p + 1); cx.count("fault.frame_reorder"); } }
                 1 => { let d = stream[p].clone(); stream.insert(p, Req { tag: format!("{}-dup", d.tag), ..d }); cx.count("fault.frame_dup"); }
-                2 => { let c = int_corruptions(stream[p].index, l); stream[p].index = c[cx.ch.choose("int", c.len() as u64) as usize]; stream[p].tag.push_str("-idx"); cx.count("fault.int_corrupt"); }
+                2 => { let cs = int_corruptions(stream[p].index, l); stream[p].index = cs[cx.ch.choose("int", cs.len() as u64) as usize]; stream[p].tag.push_str("-idx"); cx.count("fault.int_corrupt"); }
                 3 => { stream[p].old.push(0x55); stream[p].tag.push_str("-old"); cx.count("fault.elem_alter_old"); }
                 _ => { stream.remove(p); cx.count("fault.frame_drop"); }
             }
         }
         apply_next(cx, issuer, holder, model, stream, 0, l);
     });
-    cx.run();
 }
 
 /// the Issuer applies the requests in arrival order, each on the signature of the current epoch
